@@ -151,4 +151,28 @@ theorem third_user_powerless (s : CS) (sid uid ev : String) (seq : Int) (payload
   repeat' split
   all_goals simp
 
+/-! ### the establishment timer: "missed … when the configured timeout expires" -/
+
+/-- an invitation which starts a call arms the timer -/
+theorem invitation_arms_timer (s : CS) (c : Call) (h : s.call = some c) (ha : c.accepted = false) : s.timerArmed = true := by
+  unfold CS.timerArmed; rw [h]; simp [ha]
+
+/-- **ringing, media signalling, stale or foreign events do not touch the timer**: whatever event arrives other than an acceptance or a
+hang-up, a call which waits to be accepted keeps waiting under the same timer -/
+theorem only_accept_or_hangup_touch_timer (s : CS) (sid uid ev : String) (seq : Int) (payload : String)
+    (h1 : ev ≠ "accept") (h2 : ev ≠ "hang-up") : (s.event sid uid ev seq payload).1 = s := by
+  unfold CS.event
+  simp only [h1, h2, or_false, false_or, if_false]
+  repeat' split
+  all_goals rfl
+
+/-- once the timer goes off the call is over: a new one can be started -/
+theorem timeout_ends_call (s : CS) : (s.terminate true).1.call = none := by
+  unfold CS.terminate
+  split
+  · assumption
+  · split
+    · rfl
+    · unfold CS.endCall; rfl
+
 end Tinode.Props.C15
